@@ -542,3 +542,24 @@ def every_u16(f, t):
                         if e and e[0] == 'disc' and 0 in e[2] and not e[3]:
                             return cc.bb not in f.reachable(x)
     return False
+
+
+def nonempty_of(t):
+    """the collection term X when `t` is a non-emptiness test of X: !X.is_empty(), X.len() > 0, X.len() != 0, X.len() >= 1"""
+    t0 = strip(t)
+    if t0[0] == 'unop' and t0[1] == 'Not':
+        x = strip(t0[2])
+        if x[0] == 'call' and x[1].endswith('::is_empty') and x[2]:
+            return x[2][0]
+        return None
+    if t0[0] == 'binop' and t0[1] in ('Gt', 'Ne', 'Ge'):
+        a = strip(t0[2])
+        k = const_eval(t0[3])
+        if a[0] == 'call' and a[1].endswith('::len') and a[2] and ((t0[1] in ('Gt', 'Ne') and k == 0) or (t0[1] == 'Ge' and k == 1)):
+            return a[2][0]
+    if t0[0] == 'binop' and t0[1] in ('Lt', 'Ne', 'Le'):
+        b = strip(t0[3])
+        k = const_eval(t0[2])
+        if b[0] == 'call' and b[1].endswith('::len') and b[2] and ((t0[1] in ('Lt', 'Ne') and k == 0) or (t0[1] == 'Le' and k == 1)):
+            return b[2][0]
+    return None
